@@ -64,6 +64,7 @@ def run(ctx, rep):
     entry_key(F, rep)
     from props import _strunits
     _strunits.unit_mix(F, rep, "C04.index-unit", ["compiler", "bytecode"])
+    record_shapes(F, rep)
     log_arguments(F, rep)
     panic_is_not_success(ctx, rep)
     rep.assume("a character not compared against any constant by the reader behaves like the class representative 'x' (the reader touches "
@@ -161,6 +162,52 @@ def run(ctx, rep):
         ok = all(x.matches(("bytecode::instruction::split_string", "alloc::boxed::Box::new")) for x in o) or not o
         rep.ob("C04.loader", "loaded instruction keeps the tokens split_string produced", "ok" if ok else "violated",
                "arguments derive from %s" % [mir.short(x.callee()) for x in o], c.span, fn=gf.path)
+
+
+def record_shapes(F, rep, rule="C04.framing"):
+    """Every record of a binary file between a function label and its end is an instruction whose first byte is the opcode.  The loader
+    singles out the label (`f `) and the end (`e`) by their first byte: a first-byte test whose value is the id of an instruction would take
+    that instruction's records for something else (id 35, `neg`, is `#`).  The first-byte constants of get_functions' record match are read
+    from the MIR and compared with the opcode ids; a test on an opcode's value is accepted only if every way on from it builds the
+    instruction (Instruction::new) before the next record is read."""
+    import opcodes
+    gf = need(F, "bytecode::file::MScriptFile::get_functions")
+    ids = opcodes.tables(F)["ids"]
+    by_id = {}
+    for k, v in ids.items():
+        by_id.setdefault(v, k)
+    rep.floor(rule + " opcode ids", len(by_id), 55)
+    reads = gf.calls_to("std::io::BufRead::read_until")
+    news = {c.bb for c in gf.calls_to("bytecode::instruction::Instruction::new")}
+    if not reads or not news:
+        raise AnchorMissing("read_until / Instruction::new in get_functions")
+    header = reads[0].bb
+    tests = []
+    for bi, blk in enumerate(gf.blocks):
+        t = blk["t"]
+        if t["k"] != "switch" or t.get("dty") != "u8":
+            continue
+        pl = mir.op_place(t["discr"])
+        pr = (pl or {}).get("p") or []
+        if any(e[0] == "cidx" and e[1] == 0 and not e[3] for e in pr):
+            for v, tg in t["targets"]:
+                tests.append((bi, int(v), tg))
+    rep.floor(rule + " first-byte tests of the record match", len(tests), 2)
+    bad = []
+    for bi, v, tg in tests:
+        if v not in by_id:
+            continue
+        # every way from the matched edge back to the next read goes through Instruction::new?
+        reach = gf.reachable(tg, removed_blocks=news)
+        if header in reach:
+            bad.append((v, by_id[v], gf.blocks[bi]["t"].get("sp")))
+    for v, name, sp in bad:
+        rep.ob(rule, "a record that starts with byte %d (%r) is the instruction %s" % (v, chr(v), name), "violated",
+               "the loader recognises another record shape by that first byte and goes on without building the instruction: every `%s` read from a file is dropped"
+               % name.lower(), sp, fn=gf.path, key="%s|first-byte|%s" % (rule, name))
+    if not bad:
+        rep.ob(rule, "no record shape other than an instruction is recognised by a first byte that is an opcode", "ok",
+               "first-byte constants %s; opcode ids 0..%d" % (sorted({chr(v) for _, v, _ in tests}), max(by_id)), gf.span, fn=gf.path, key=rule + "|first-byte")
 
 
 def log_arguments(F, rep):
